@@ -42,7 +42,7 @@ func (p *expressionPostFixerImpl) ConvertToPostfix(infixTokens []*token) ([]*Ope
 	var opStack = []*token{{TokenType: openBracket}}
 	var tokens = append(infixTokens, &token{TokenType: closeBracket})
 
-	for _, currentToken := range tokens {
+	for tokenIndex, currentToken := range tokens {
 		log.Debugf("postfix processing currentToken %v", currentToken.toString(true))
 		switch currentToken.TokenType {
 		case openBracket, openCollect, openCollectObject:
@@ -104,6 +104,11 @@ func (p *expressionPostFixerImpl) ConvertToPostfix(infixTokens []*token) ([]*Ope
 				opStack, result = popOpToResult(opStack, result)
 			}
 			if len(opStack) == 0 {
+				return nil, errors.New("bad expression, got close brackets without matching opening bracket")
+			}
+			// the bracket at the bottom is the one put around the whole expression: only the closing
+			// bracket appended at the end matches it
+			if len(opStack) == 1 && tokenIndex != len(tokens)-1 {
 				return nil, errors.New("bad expression, got close brackets without matching opening bracket")
 			}
 			// now we should have ( as the last element on the opStack, get rid of it
